@@ -460,11 +460,11 @@ class Facts(dict):
 def path_events(p, env):
     """Ordered events of one path (sa/paths.Path): ('s', first line of the unparsed statement) for statements,
     ('c', CP(condition, truth)) for branch outcomes (polarity folded), and a final ('end', kind)."""
-    from .canon import U
+    from .canon import U, Code as _Code
     out = []
     for ev in p.events:
         if ev[0] == 'stmt':
-            out.append(('s', U(ev[1]).split('\n')[0]))
+            out.append(('s', _Code(U(ev[1]).split('\n')[0])))
         elif ev[0] == 'cond':
             out.append(('c', CP(cond_str(ev[1], env), ev[2])))
     out.append(('end', p.end[0]))
